@@ -115,6 +115,8 @@ type VC struct {
 	covers   []*Obl
 	seeded   map[string]bool
 	bitsExact bool
+	nativeArith bool
+	axioms   []string
 }
 
 func newVC(eng *Engine, key string) *VC {
@@ -203,6 +205,12 @@ func (e *Engine) typeName(t types.Type) string {
 	case *types.Alias:
 		return e.typeName(types.Unalias(u))
 	case *types.Basic:
+		switch u.Kind() {
+		case types.Uint8:
+			return "uint8"
+		case types.Int32:
+			return "int32"
+		}
 		return u.Name()
 	case *types.Pointer:
 		return "ptr_" + e.typeName(u.Elem())
